@@ -1,0 +1,11 @@
+//go:build verif
+
+package nat
+
+// HoldWriterForVerif takes the logger's write lock, so that every Flush / FlushPortBlocks queues at
+// it; the verification harness uses it to place two flushes (the background flushLoop's and an
+// inline one) relative to each other deterministically. Verification harness only.
+func (l *Logger) HoldWriterForVerif() { l.mu.Lock() }
+
+// ReleaseWriterForVerif releases the lock taken by HoldWriterForVerif.
+func (l *Logger) ReleaseWriterForVerif() { l.mu.Unlock() }
